@@ -16,7 +16,8 @@ LEVEL = "exploration"
 RULE = (
     "Accessor decomposition enumerated at every minute boundary -1/0/+1 ns plus generated ns; plus_<unit>(n) for 7 "
     "units with amounts biased to multiples of units-per-day +/-1, 2^31, 2^63, 10^30; all factories with in/out-of-"
-    "range components; LocalDateTime in all calendars incl. plus(Period)/minus(Period) with mixed-sign components. "
+    "range components (incl. arguments whose product wraps at 2^32..2^128); LocalTime +/- Period, truncating "
+    "adjusters, on(date)/with_offset; LocalDateTime in all calendars incl. plus(Period)/minus(Period) with mixed-sign components. "
     "Oracle: int model. Non-trivial: amount is a non-zero multiple of units-per-day +/-1, negative with a borrow, "
     "beyond 64 bits, crosses a day boundary, or a factory argument out of range. Distinct = (kind, case) hash."
 )
